@@ -45,11 +45,11 @@ CheckStepP(want, pre, e, post, acc, line) ==
   /\ (want["C06"]) => C06(pre, e, post, line)
   /\ (want["C16"]) => C16(pre, e, post, line)
   /\ (want["C17"]) => C17(pre, e, post, line)
-  /\ (want["C04"]) => C04(pre, e, post, line)
+  /\ (want["C04"]) => C04(pre, Eff(e), post, line)
   /\ (want["C05"]) => C05(pre, e, post, line)
   /\ (want["C07"]) => C07(pre, e, post, acc.c07, line)
-  /\ (want["C09"]) => C09(pre, e, post, line)
-  /\ (want["C13"]) => C13(pre, e, post, line)
+  /\ (want["C09"]) => C09(pre, Eff(e), post, line)
+  /\ (want["C13"]) => C13(pre, Eff(e), post, line)
   /\ (want["C08"]) => (C08(pre, e, post, line) /\ C08Sub(pre, e, post, line))
   /\ (want["C12"]) => C12(pre, e, post, acc.c12, line)
   /\ (want["C19"]) => C19(pre, e, post, line)
